@@ -88,13 +88,10 @@ func (ln *listener) Accept() (net.Conn, error) {
 
 // Close implements Listener.
 func (ln *listener) Close() error {
-	if ln.file != nil {
-		// ln.fd is the descriptor of ln.file, which closes it below. Closing the
-		// number here as well closes it twice: the second close hits whatever
-		// descriptor another goroutine has been given in between.
-		ln.fd = 0
-	}
-	if ln.fd != 0 {
+	// When ln.file is set, ln.fd is the descriptor of ln.file, which closes it below.
+	// Closing the number here as well closes it twice: the second close hits whatever
+	// descriptor another goroutine has been given in between.
+	if ln.fd != 0 && ln.file == nil {
 		syscall.Close(ln.fd)
 	}
 	if ln.file != nil {
